@@ -181,6 +181,8 @@ func GenerateImpl(seed uint64, root string) *Module {
 		if pkg == "ifc" {
 			// interfaces declared through alias declarations: of a defined interface, and of an interface literal
 			b.WriteString("type AliasI0 = I0\n\ntype Closer = interface{ Close() error }\n\n")
+			// interfaces composed three levels deep: the deepest methods are required too
+			b.WriteString("type Bottom interface{ BottomM(int) string }\n\ntype Middle interface {\n\tBottom\n\tMiddleM()\n}\n\ntype Top interface {\n\tMiddle\n\tTopM() error\n}\n\n")
 		}
 		return b.String()
 	}
@@ -501,6 +503,10 @@ func GenerateImpl(seed uint64, root string) *Module {
 			b.WriteString(fmt.Sprintf("%s\ntype AliasT%d = %s\n\n", ann, k, target))
 		}
 	}
+	// three levels of embedded interfaces: complete, missing the deepest method, missing the middle one
+	b.WriteString("// @implements " + qual + "Top\ntype DeepOK struct{}\n\nfunc (DeepOK) BottomM(int) string { return \"\" }\nfunc (DeepOK) MiddleM()              {}\nfunc (DeepOK) TopM() error           { return nil }\n\n")
+	b.WriteString("// @implements " + qual + "Top\ntype DeepNoBottom struct{}\n\nfunc (DeepNoBottom) MiddleM()    {}\nfunc (DeepNoBottom) TopM() error { return nil }\n\n")
+	b.WriteString("// @implements &" + qual + "Top\ntype DeepNoMiddle struct{}\n\nfunc (*DeepNoMiddle) BottomM(int) string { return \"\" }\nfunc (*DeepNoMiddle) TopM() error           { return nil }\n\n")
 	// an annotated blank type: there is no such name in the package scope
 	b.WriteString("// @implements LocalI\ntype _ struct{ Z int }\n\n")
 	udir := root + "/" + map[bool]string{true: "ifcuser", false: "user"}[uname == "ifc"]
@@ -514,6 +520,8 @@ func GenerateImpl(seed uint64, root string) *Module {
 	m.Files[root+"/sibling/s.go"] = "package sibling\n\nimport (\n\t\"" + g.base + "/v2/ifc\"\n\t_ \"" + upath + "\"\n)\n\nvar _ ifc.Data\n\n" +
 		"// @implements ifc.Legacy\ntype Old struct{}\n\nfunc (Old) Old() {}\n\n// @implements ifc.I0\ntype V2Only struct{}\n\nfunc (V2Only) OnlyInV2() {}\n\n" +
 		"// @implements &ifc.I0\ntype Neither struct{}\n\n// @implements ifc.Closer\ntype NoSuch struct{}\n"
+	m.Files[root+"/lonely/a.go"] = "package lonely\n\n// L names a package that only the test file of this package imports.\n// @implements ifc.I0\ntype L struct{}\n\n// @implements &ifc.Closer\ntype L2 struct{}\n"
+	m.Files[root+"/lonely/a_test.go"] = "package lonely\n\nimport \"" + g.base + "/ifc\"\n\nvar _ ifc.Data\n"
 	m.Files[udir+"/z_noimport.go"] = "package " + uname + "\n\n// @implements " + q1 + ".I0\ntype Lonely struct{}\n\n// @implements &" + strings.TrimSuffix(yq, ".") + ".I" + fmt.Sprint(nI-1) + "\ntype Lonely2 struct{}\n\n// @implements LocalI\ntype Lonely3 struct{}\n"
 	return m
 }
